@@ -78,12 +78,23 @@ const (
 	EndOfAuditLogChainMessage = "End of current audit log chain"
 )
 
+// splitIntegrity splits log line into authenticated data and integrity check with optional chain marker.
+// Integrity check is always appended to the end of the formatted entry, so the last DataSplitToken is the real one,
+// whatever the message and the fields of the entry contain.
+func splitIntegrity(rawData string) []string {
+	idx := strings.LastIndex(rawData, DataSplitToken)
+	if idx < 0 {
+		return []string{rawData}
+	}
+	return []string{rawData[:idx], rawData[idx+len(DataSplitToken):]}
+}
+
 // ParseEntry parse cef log line with next expected input example and return ParsedLogEntry:
 // CEF:0|<value>|<value>|<value>|100|<value>|1|unixTime=<value> integrity=<value> chain=<value>
 // CEF:0|<value>|<value>|<value>|100|<value>|1|unixTime=<value> integrity=<value>
 func (parser *CefLogParser) ParseEntry(rawData string) (*ParsedLogEntry, error) {
 	parsedLogEntry := &ParsedLogEntry{}
-	rawLogEntry := strings.Split(rawData, DataSplitToken)
+	rawLogEntry := splitIntegrity(rawData)
 	if len(rawLogEntry) != 2 {
 		return nil, ErrCefIntegrityExtract
 	}
@@ -114,7 +125,7 @@ func (parser *CefLogParser) ParseEntry(rawData string) (*ParsedLogEntry, error) 
 // time="<value>" level=<value> msg="<value>" version=<value> integrity=<value>
 func (parser *PlaintextLogParser) ParseEntry(rawData string) (*ParsedLogEntry, error) {
 	parsedLogEntry := &ParsedLogEntry{}
-	rawLogEntry := strings.Split(rawData, DataSplitToken)
+	rawLogEntry := splitIntegrity(rawData)
 	if len(rawLogEntry) != 2 {
 		return nil, ErrPlaintextIntegrityExtract
 	}
